@@ -285,7 +285,6 @@ type stub struct {
 	started    bool
 	doneC      chan struct{}
 	srvErrC    chan error
-	syncReq    *api.SynchronizeRequest
 
 	registrationTimeout time.Duration
 	requestTimeout      time.Duration
@@ -501,7 +500,6 @@ func (stub *stub) close() {
 
 	stub.started = false
 	stub.conn = nil
-	stub.syncReq = nil
 }
 
 // Run the plugin. Start event processing then wait for an error or getting stopped.
@@ -636,6 +634,7 @@ func (stub *stub) UpdateContainers(update []*api.ContainerUpdate) ([]*api.Contai
 type pluginService struct {
 	*stub
 	cfgErrC chan error
+	syncReq *api.SynchronizeRequest // chunks of this connection's split synchronization
 }
 
 // Configure the plugin and let the Start() of this connection know the result.
@@ -698,41 +697,46 @@ func (stub *stub) Configure(ctx context.Context, req *api.ConfigureRequest) (rpl
 	}, nil
 }
 
-// Synchronize the state of the plugin with the runtime.
-func (stub *stub) Synchronize(ctx context.Context, req *api.SynchronizeRequest) (*api.SynchronizeResponse, error) {
-	handler := stub.handlers.Synchronize
+// Synchronize the state of the plugin with the runtime. The chunks of a split
+// synchronization are collected per connection: a chunk whose handler runs
+// only after its connection is gone never ends up in the synchronization of
+// a later connection.
+func (s *pluginService) Synchronize(ctx context.Context, req *api.SynchronizeRequest) (*api.SynchronizeResponse, error) {
+	handler := s.stub.handlers.Synchronize
 	if handler == nil {
 		return &api.SynchronizeResponse{More: req.More}, nil
 	}
 
 	if req.More {
-		return stub.collectSync(req)
+		return s.collectSync(req)
 	}
 
-	return stub.deliverSync(ctx, req)
+	return s.deliverSync(ctx, req)
 }
 
-func (stub *stub) collectSync(req *api.SynchronizeRequest) (*api.SynchronizeResponse, error) {
-	stub.Lock()
-	defer stub.Unlock()
+func (s *pluginService) collectSync(req *api.SynchronizeRequest) (*api.SynchronizeResponse, error) {
+	s.stub.Lock()
+	defer s.stub.Unlock()
 
 	log.Debugf(noCtx, "collecting sync req with %d pods, %d containers...",
 		len(req.Pods), len(req.Containers))
 
-	if stub.syncReq == nil {
-		stub.syncReq = req
+	if s.syncReq == nil {
+		s.syncReq = req
 	} else {
-		stub.syncReq.Pods = append(stub.syncReq.Pods, req.Pods...)
-		stub.syncReq.Containers = append(stub.syncReq.Containers, req.Containers...)
+		s.syncReq.Pods = append(s.syncReq.Pods, req.Pods...)
+		s.syncReq.Containers = append(s.syncReq.Containers, req.Containers...)
 	}
 
 	return &api.SynchronizeResponse{More: req.More}, nil
 }
 
-func (stub *stub) deliverSync(ctx context.Context, req *api.SynchronizeRequest) (*api.SynchronizeResponse, error) {
+func (s *pluginService) deliverSync(ctx context.Context, req *api.SynchronizeRequest) (*api.SynchronizeResponse, error) {
+	stub := s.stub
+
 	stub.Lock()
-	syncReq := stub.syncReq
-	stub.syncReq = nil
+	syncReq := s.syncReq
+	s.syncReq = nil
 	stub.Unlock()
 
 	if syncReq == nil {
